@@ -193,6 +193,12 @@ impl RK23 {
                 break;
             }
 
+            // Check for step-size underflow: no further progress is possible
+            if 0.1 * h.abs() <= x.abs() * Float::EPSILON {
+                status = Status::StepSizeTooSmall;
+                break;
+            }
+
             // Check for last step adjustment
             if (x + h - xend) * posneg > 0.0 {
                 h = xend - x;
@@ -298,11 +304,15 @@ impl RK23 {
                     break;
                 }
             } else {
-                // Step rejected
+                // Step rejected (a non-finite error estimate shrinks the step by the largest allowed factor)
                 steps.rejected += 1;
-                h *= (safety_factor * err.powf(error_exponent))
-                    .min(1.0)
-                    .max(scale_min);
+                h *= if err.is_nan() {
+                    scale_min
+                } else {
+                    (safety_factor * err.powf(error_exponent))
+                        .min(1.0)
+                        .max(scale_min)
+                };
             }
         }
 
